@@ -5,7 +5,7 @@ From Coq Require String.
 Notation string := String.string.
 From PS.model Require Import Smt Enc Ind Prog.
 From PS.spec Require Import Spec.
-From PS.proofs Require Import Base.
+From PS.proofs Require Import Base C03_contig.
 Import ListNotations.
 Open Scope Z_scope.
 
@@ -172,6 +172,18 @@ Proof.
     exact (guard2_elim _ _ _ _ (one _ _ _ H) Ha Hb).
   - (* dont_overlap *) destruct Hin as [[= <- <-]|[]]. apply whenact2_intro; intros Ha Hb.
     pose proof (guard2_elim _ _ _ _ (one _ _ _ H) Ha Hb) as H1. ev. lia.
+  - (* contiguous *)
+    apply in_app_or in Hin as [Hin|Hin].
+    + apply in_map_iff in Hin as ([a b] & [= <- <-] & Hab). rewrite feval_eq.
+      destruct (feval e (running ts)) eqn:Hr; [cbn [implb]|reflexivity].
+      destruct (contiguous_sound e c ts H Hr) as [Hd _]. specialize (Hd a b Hab). ev. lia.
+    + apply in_map_iff in Hin as ([t others] & [= <- <-] & Hto). rewrite feval_eq.
+      destruct (feval e (running ts)) eqn:Hr; [cbn [implb]|reflexivity].
+      destruct (contiguous_sound e c ts H Hr) as [_ Hsu]. specialize (Hsu t others Hto).
+      rewrite feval_eq. cbn [existsb]. rewrite orb_false_r. apply orb_true_iff. destruct Hsu as [Hall|(u & Hu & Heq)].
+      * left. rewrite feval_eq. apply forallb_forall. intros f Hf. apply in_map_iff in Hf as (u & <- & Hu).
+        specialize (Hall u Hu). rewrite feval_eq. lia.
+      * right. rewrite feval_eq. apply existsb_exists. exists (FEq (S_ u) (E_ t)). split; [exact (in_map (fun u0 => FEq (S_ u0) (E_ t)) others u Hu)|]. rewrite feval_eq. lia.
   - (* unordered group *)
     pose proof (one _ _ _ H) as HA. clear H. rewrite app_nil_r in Hin.
     assert (Hbody : forall t, In t ts -> feval e (FGe (S_ t) (aux c 0)) = true /\ feval e (FLe (E_ t) (aux c 1)) = true).
